@@ -175,6 +175,22 @@ def r7_1(F, R):
                         work.extend(fn.succ()[b])
                 if hit is not None:
                     problems.append("%s is honoured at nesting depth > 0 (action at %s reachable without `depth == 0`): an \\else/\\or belonging to a nested skipped conditional ends the skip" % (tg, fn.loc(fn.blocks[hit]["t"])))
+                # no state change before the depth gate: blocks owned by this test (dominated by its true edge) but not
+                # by the true edge of a `depth == 0` test may only compute temporaries
+                gated = set()
+                for b0, (t0, f0) in eq0_blocks.items():
+                    if tt in dom.get(b0, ()) or b0 == tt:
+                        gated |= {b for b in body if t0 in dom.get(b, ())}
+                for b in body:
+                    if tt not in dom.get(b, ()) or b in gated:
+                        continue
+                    for st in fn.blocks[b]["s"]:
+                        if st["k"] == "=" and not st["lhs"]["p"] and fn.local_name(st["lhs"]["l"]) is not None:
+                            problems.append("%s changes `%s` at %s before the `depth == 0` test: an \\%s of a nested skipped conditional affects the outer one" % (
+                                tg, fn.local_name(st["lhs"]["l"]), fn.loc(st), tg.split("_")[0]))
+                    tb = fn.blocks[b]["t"]
+                    if tb["k"] == "call" and (callee_generic(tb) or "").startswith(MOD):
+                        problems.append("%s calls %s at %s before the `depth == 0` test" % (tg, callee_generic(tb), fn.loc(tb)))
             # (d) no other normal way out of the loop
             allowed_exits = set()
             for b, tt, ft in lt:
@@ -446,6 +462,25 @@ def r7_5(F, R):
                 problems.append("no back() of the token to expand before expand_once")
             if not after:
                 problems.append("held-back tokens are not returned to the input after expand_once")
+        # path rule: from the second read, expand_once is reached only through back(<second token>) — a loop exit that
+        # skips it (e.g. a bounded look-ahead running out) loses the token that was just read
+        if len(eo) == 1 and len(reads) == 2:
+            second = max(reads, key=lambda r: fn.line if False else r[1].get("ln", 0))
+            sdl = second[1]["dest"]["l"]
+            tainted2 = flow.forward_taint({sdl})
+            backs2 = []
+            for sb, s in sinks:
+                g = callee_generic(s) or ""
+                if g.endswith("back"):
+                    for a in s["args"][1:]:
+                        pp = op_place(a)
+                        if pp is not None and pp["l"] in tainted2:
+                            backs2.append(sb)
+            hdrs = [h for h, body in natural_loops(fn) if second[0] in body]
+            starts = hdrs or [second[0]]
+            path = find_path(fn, starts, lambda b: b == eo[0], blocked=set(backs2) | eb)
+            if path is not None:
+                problems.append("expand_once can be reached without putting the second token back (path %s): the token after the chain is not the one expanded" % [fn.loc(fn.blocks[b]["t"]) for b in path][-4:])
         if problems:
             for pr in problems:
                 R.violation("R7.5", nm + "/" + "-".join(pr.split(" ")[:3]), "%s: %s" % (fn.name, pr), loc)
